@@ -46,7 +46,12 @@ def run(chk):
     for f in ('elementpath/collations.py', 'elementpath/xpath2/_xpath2_functions.py', 'elementpath/xpath30/_xpath30_functions.py', 'elementpath/etree.py'):
         chk.record_source(f)
     chk.forbidden_scan(['C19'])
-    proved = chk.prove(['theories/C19/Model.v', 'theories/C19/Proofs.v', 'theories/C19/Run.v'], 'theories/C19/Properties.v')
+    import sys as _sys
+    _sys.path.insert(0, core.VERIF + '/harness')
+    import gen_c19
+    gen_c19.generate()          # source-shape facts regenerated from /repo on every run
+    chk.trusted.append('harness/shape.py: AST lookup of the statements mirrored by the hand model (Gen/C19Shape.v)')
+    proved = chk.prove(['theories/Gen/C19Shape.v', 'theories/C19/Model.v', 'theories/C19/Proofs.v', 'theories/C19/Run.v'], 'theories/C19/Properties.v')
     model_ok = True
     if not proved:
         try:
